@@ -21,6 +21,11 @@ CHECKS = {
         text="Exploration. Soundness: programs accepted against Env(core.Env{}) under {none, AsBool, AsInt64, AsFloat64} and optimiser on/off are run on generated values; where the library's own checker typed every operand concretely, a success must have exactly the reported dynamic type (bool/int64/float64 under a directive) and a failure must be one the reference evaluator also produces with class index, divzero, nil, pattern, budget or envpanic. Rejection: 30 fault templates covering the documented rules (unknown name/field/method/function, mismatched operands of every operator family, wrong arity, wrong argument type incl. numeric kind, non-boolean condition/predicate, non-collection builtin argument) substituted at any position (argument, closure body, branch, slice bound incl. `[:x]`, index, array element, map value) must make Compile fail with the optimiser on and off.",
         note="Trusted: the reference evaluator's failure classes; a second classifier on the error text demotes disagreements to 'inconclusive'. Open findings: F27 (static type of filter/map results and folded literal arrays), F19 (integer literals / arithmetic in call arguments are re-typed) - their regions are excluded and replayed.",
         ref="4/C03"),
+    "C04": dict(
+        technique="property-based testing (rapid) over (source, option set, environment) triples with recover()-based containment oracle and a hang watchdog; sources from typed/ill-typed generators, token-level mutation and a hostile-constant corpus; native coverage-guided fuzzing (go test -fuzz) in the thorough tier",
+        text="Exploration: Parse, Compile, Eval, Run and Disassemble are called under recover() on generated, fault-injected, token-mutated and hostile sources, under option sets spanning Env kinds (none, struct, pointer, map, typed map, map with nil entries), AllowUndefinedVariables, Optimize, result directives, Operator and ConstExpr tables naming good / missing / non-function / nil / panicking members, and 21 node-replacing Patch visitors at drawn positions, against environments that are nil, empty, wrongly typed, zero-valued or whose functions panic. No panic may escape; an error comes with a nil program/value; a program returned without error must be runnable; a case that does not finish is reported by a watchdog.",
+        note="Trusted: the recover() wrappers. Hang is only judged for generated cases whose run time is bounded by construction (budget lowered to 150, integer literals clamped); legitimately long runs are outside the check (DESIGN.md section 7).",
+        ref="4/C04"),
     "C05": dict(
         technique="property-based testing (rapid) + deterministic enumeration of oversized programs; validity predicate: independent bytecode decoder with operand/constant-kind/jump-target checks and an exact stack/scope-depth dataflow over the control-flow graph; run-time end-state check on a caller-owned VM; reference evaluator for large programs",
         text="Exploration: every generated program (C01/C02 generators, typed/untyped, optimiser on/off, cast directives) is decoded by an opcode table written independently of the VM (cross-checked against Disassemble), its operands, constant kinds and jump targets are checked, and its stack/scope depth is propagated along every control-flow path (never below what an instruction pops, equal at joins, one value and no scope at the end; programs with run-time sized arrays from map/filter are exempt from the depth dataflow and counted); each is then run on a caller-owned VM whose stack must be empty and scope closed after success, and no failure may carry Go's empty-stack signature. Eight constructions with branches / loop bodies beyond 64 KiB and constant pools beyond 65 535 entries must be refused at compile time or verify and agree with the reference evaluator.",
